@@ -62,7 +62,63 @@ func genC01(r *rng, tier string, add func(g *G)) {
 }
 
 // ---------------------------------------------------------------- C02: clean restart
+// directed: the free list of overflow buckets across clean restarts. A long chain is split (its old
+// overflow buckets go to the free list); a later session takes a bucket from the free list without
+// changing the key count or the table shape; restarts in between; then more overflow allocations.
+func genC02FreeList(r *rng, tier string, add func(g *G)) {
+	n := scale(tier, 4, 40)
+	for i := 0; i < n; i++ {
+		g := newG(r.fork(), fmt.Sprintf("C02/freelist/%d", i))
+		g.dumpEvery = 0
+		g.params(1<<16, 512, 0.5, false)
+		g.open()
+		coll := g.collidingKeys(70, 16, "f")
+		others := g.randomKeys(400)
+		g.keys = append(append([][]byte{}, coll...), others[:20]...)
+		for _, k := range coll[:62] {
+			g.put(k, g.r.bytes(4))
+		}
+		free := 0
+		for j := 0; j < len(others) && free == 0; j++ {
+			g.put(others[j], g.r.bytes(4))
+			if idx, err := pogreb.VerifIndexDump(g.im.DB); err == nil {
+				free = len(idx.Free)
+			}
+		}
+		if free == 0 {
+			continue
+		}
+		g.c.tag("free_list_nonempty_at_close")
+		g.dump()
+		g.close()
+		g.open()
+		g.c.Steps[len(g.c.Steps)-1].Expect = []string{"open ok recovered=0"}
+		g.dump()
+		// same key count, same table shape, but one bucket leaves the free list
+		g.del(others[0])
+		g.put(coll[62], g.r.bytes(4))
+		g.dump()
+		g.close()
+		g.open()
+		g.c.Steps[len(g.c.Steps)-1].Expect = []string{"open ok recovered=0"}
+		g.dump()
+		for _, k := range coll[63:] {
+			g.put(k, g.r.bytes(4))
+		}
+		for _, k := range others[20:60] {
+			g.put(k, g.r.bytes(4))
+		}
+		g.dump()
+		g.checkAll()
+		for _, k := range coll {
+			g.get(k)
+		}
+		add(g)
+	}
+}
+
 func genC02(r *rng, tier string, add func(g *G)) {
+	genC02FreeList(r, tier, add)
 	n := scale(tier, 50, 800)
 	for i := 0; i < n; i++ {
 		g := newG(r.fork(), fmt.Sprintf("C02/%d", i))
@@ -178,7 +234,11 @@ func genCrash(prop string, epochsMax int) genFunc {
 		for i := 0; i < n; i++ {
 			g := newG(r.fork(), fmt.Sprintf("%s/%d", prop, i))
 			g.dumpEvery = 0
-			g.params([]int{600, 700, 1100, 2048}[g.r.intn(4)], 512, []float32{0.0001, 0.1, 0.3}[g.r.intn(3)], g.r.chance(30))
+			maxSeg := []int{600, 700, 1100, 2048}[g.r.intn(4)]
+			if i%6 == 5 {
+				maxSeg = 1 << 16
+			}
+			g.params(maxSeg, 512, []float32{0.0001, 0.1, 0.3}[g.r.intn(3)], g.r.chance(30))
 			g.open()
 			g.keys = g.randomKeys(12)
 			if i%3 == 0 {
@@ -187,6 +247,11 @@ func genCrash(prop string, epochsMax int) genFunc {
 				g.bigValues = true
 			}
 			epochs := 1 + g.r.intn(epochsMax)
+			if i%6 == 5 {
+				// a torn write that leaves fewer bytes than a record header: the record in flight
+				// starts 1-5 bytes before a sector boundary
+				g.shortFragmentCrash()
+			}
 			for e := 0; e < epochs; e++ {
 				warm := g.r.intn(25)
 				for j := 0; j < warm; j++ {
@@ -237,13 +302,103 @@ func genCrash(prop string, epochsMax int) genFunc {
 	}
 }
 
+// shortFragmentCrash pads the current segment so that the next record starts j (1..5) bytes before a
+// 512-byte boundary, starts a Put, crashes at the first sector cut (j bytes of the record reach the
+// file), recovers, writes, and crashes again.
+func (g *G) shortFragmentCrash() {
+	if g.im.DB == nil {
+		return
+	}
+	var size int64 = -1
+	for _, sg := range pogreb.VerifSegments(g.im.DB) {
+		if sg.Current {
+			size = sg.Size
+		}
+	}
+	if size < 0 {
+		return
+	}
+	j := 1 + g.r.intn(5)
+	k := g.pick()
+	need := (512 - int64(j) - size - 10 - int64(len(k))) % 512
+	for need < 0 {
+		need += 512
+	}
+	if int(size)+10+len(k)+int(need)+40 > g.maxSeg {
+		return // would roll over: skip
+	}
+	g.put(k, g.r.bytes(int(need)))
+	before := copyMap(g.ref)
+	g.put(g.pick(), g.r.bytes(20+g.r.intn(40)))
+	for _, p := range g.crashPoints() {
+		if p[1] == j {
+			g.c.tag("torn_write_shorter_than_a_header")
+			g.crashLast(before, g.ref, p[0], p[1])
+			for n := 0; n < 4; n++ {
+				g.put(g.pick(), g.value())
+			}
+			g.do("kill")
+			g.isOpen = false
+			g.open()
+			g.checkAll()
+			g.dump()
+			return
+		}
+	}
+}
+
 // ---------------------------------------------------------------- C05: compaction with interleaved writers
+// directed: an older segment that is NOT eligible holds the live put of a key; the current segment IS
+// eligible (overwrites inside it) and holds no delete record; a Delete of the key slips in right
+// after the pick. If the picked current segment were still writable the delete marker would be
+// compacted away with it and the next recovery would resurrect the key.
+func genC05Directed(r *rng, tier string, add func(g *G)) {
+	n := scale(tier, 8, 80)
+	for i := 0; i < n; i++ {
+		g := newG(r.fork(), fmt.Sprintf("C05/directed/%d", i))
+		g.dumpEvery = 0
+		g.params(700, 512, 0.1, false)
+		g.open()
+		a, b, c := []byte("key-a"), []byte("key-b"), []byte("key-c")
+		g.keys = [][]byte{a, b, c}
+		// segment 0 (188 bytes of records at most): two live records, no garbage: not eligible
+		g.put(a, g.r.bytes(72+g.r.intn(4)))
+		g.put(b, g.r.bytes(72+g.r.intn(4)))
+		// the next record does not fit: new current segment; overwrites inside it make it eligible
+		for j := 0; j < 3; j++ {
+			g.put(c, g.r.bytes(28+g.r.intn(6)))
+		}
+		g.dump()
+		g.do("cpick", "cpick ok")
+		if g.r.chance(75) {
+			g.del(a)
+		} else {
+			g.del(b)
+		}
+		g.c.tag("delete_right_after_pick")
+		for steps := 0; steps < 200; steps++ {
+			out := g.do("cstep")
+			if !strings.HasPrefix(resultLine(out), "cstep more") {
+				break
+			}
+		}
+		g.checkAll()
+		g.do("kill")
+		g.isOpen = false
+		g.open()
+		g.checkAll()
+		g.dump()
+		add(g)
+	}
+}
+
 func genC05(r *rng, tier string, add func(g *G)) {
+	genC05Directed(r, tier, add)
 	n := scale(tier, 60, 1500)
 	for i := 0; i < n; i++ {
 		g := newG(r.fork(), fmt.Sprintf("C05/%d", i))
 		g.dumpEvery = 0
-		g.params([]int{600, 700, 900}[g.r.intn(3)], 512, 0.0001, false)
+		g.params([]int{600, 700, 900}[g.r.intn(3)], 512, []float32{0.0001, 0.0001, 0.15, 0.3}[g.r.intn(4)], false)
 		g.open()
 		g.keys = g.randomKeys(10)
 		fill := 20 + g.r.intn(40)
@@ -428,10 +583,25 @@ func genC08(r *rng, tier string, add func(g *G)) {
 		g.do("dumprecs")
 		// the recovered database stays usable
 		g.keys = append(g.keys, []byte("after"))
-		for j := 0; j < 5; j++ {
-			g.put(g.pick(), g.value())
+		if kind == 4 || kind == 2 {
+			// write again exactly as many bytes as the damaged record had, then crash again: what was
+			// rejected must never come back
+			recs, _, _ := interp.RefDecode(valid)
+			if len(recs) == 1 && !recs[0].Del {
+				g.put(recs[0].Key, g.r.bytes(len(recs[0].Value)))
+				g.c.tag("same_size_rewrite_after_recovery")
+			}
+		} else {
+			for j := 0; j < 5; j++ {
+				g.put(g.pick(), g.value())
+			}
 		}
 		g.checkAll()
+		g.do("kill")
+		g.isOpen = false
+		g.open()
+		g.checkAll()
+		g.dump()
 		add(g)
 	}
 }
